@@ -58,4 +58,119 @@ def forkDeclDefault : String :=
 def stdDeclDefault : String :=
   "pos := p . pos ; p . errorExpected ( pos , \"declaration\" ) ; p . advance ( sync ) ; return & ast . BadDecl { From : pos , To : p . pos }"
 
+/-- golden table: token-text hash of EVERY function of the fork's parser.go and global.go (regenerated table
+    `Gen.ParseDispatch.forkFuncs`, relation column dropped).  Any change of the parser's code breaks obligation
+    `all_parse_functions_pinned` even when no failing input is found; the differential run is the search for one.
+    Update it (from Gen/ParseDispatch.lean) together with a reviewed change of go/parser. -/
+def allFuncs : List (String × Nat) :=
+  [("assert", 5868850778608151781),
+   ("deref", 1468979603126243585),
+   ("isLiteralType", 11176814480467565817),
+   ("isTypeName", 8655342275427828762),
+   ("isTypeSwitchAssert", 10549129895594451506),
+   ("isValidImport", 5054684326356866069),
+   ("p.atComma", 10098007122138263580),
+   ("p.checkExpr", 11323826743733410472),
+   ("p.checkExprOrType", 11089743488437297680),
+   ("p.closeLabelScope", 4542633109669617633),
+   ("p.closeScope", 7822776741025637496),
+   ("p.consumeComment", 9635981081425509565),
+   ("p.consumeCommentGroup", 14841221695904911827),
+   ("p.declare", 14920908572443630304),
+   ("p.error", 3817744887022203701),
+   ("p.errorExpected", 14002538409355059575),
+   ("p.expect", 13626979069476352731),
+   ("p.expectClosing", 18303166103830309368),
+   ("p.expectSemi", 579744433935591135),
+   ("p.init", 4727782550950919888),
+   ("p.isTypeSwitchGuard", 18098783268685356930),
+   ("p.makeExpr", 11963234310137295587),
+   ("p.makeIdentList", 10148100570941018641),
+   ("p.next", 10571100695477844053),
+   ("p.next0", 4483217511593699086),
+   ("p.openLabelScope", 15777714624507680355),
+   ("p.openScope", 6666445185471027280),
+   ("p.parseArrayType", 4045400337044749870),
+   ("p.parseBinaryExpr", 555235234297023118),
+   ("p.parseBlockStmt", 11378364930233110803),
+   ("p.parseBody", 17948536584680963975),
+   ("p.parseBranchStmt", 17920738354339502433),
+   ("p.parseCallExpr", 17068273070284900381),
+   ("p.parseCallOrConversion", 5175782518139460140),
+   ("p.parseCaseClause", 13235994780184295341),
+   ("p.parseChanType", 7134140516705711946),
+   ("p.parseCommClause", 17813884297903668032),
+   ("p.parseDecl", 17401120331337301355),
+   ("p.parseDeferStmt", 12273020775574234396),
+   ("p.parseElement", 17155576848427324498),
+   ("p.parseElementList", 331826289602957311),
+   ("p.parseExpr", 4318504136681211701),
+   ("p.parseExprList", 10103522890366615616),
+   ("p.parseFieldDecl", 16031006252947968748),
+   ("p.parseFile", 10891485854643021851),
+   ("p.parseForStmt", 9753192040755937147),
+   ("p.parseFuncDecl", 16472334136279207053),
+   ("p.parseFuncOrMacroDecl", 9478756879665174564),
+   ("p.parseFuncType", 7332916044834562096),
+   ("p.parseFuncTypeOrLit", 17367129169768913908),
+   ("p.parseGenDecl", 16456945708620394571),
+   ("p.parseGoStmt", 8086283909637655795),
+   ("p.parseIdent", 10566626084654670011),
+   ("p.parseIdentList", 10930566748499873753),
+   ("p.parseIfStmt", 13164646112716296071),
+   ("p.parseImportSpec", 17197180099901223640),
+   ("p.parseIndexOrSlice", 1231551345885930265),
+   ("p.parseInterfaceType", 4132949237356390843),
+   ("p.parseLhsList", 3380960770726196318),
+   ("p.parseLiteralValue", 4895467363500501967),
+   ("p.parseMacroDecl", 10798395800498312585),
+   ("p.parseMapType", 13818880920598292141),
+   ("p.parseMethodSpec", 7047346038577260205),
+   ("p.parseOperand", 13458561905049007908),
+   ("p.parseParameterList", 14695349461644492229),
+   ("p.parseParameters", 6249838219356774658),
+   ("p.parsePointerType", 1545941823967882992),
+   ("p.parsePrimaryExpr", 1298508999920747394),
+   ("p.parseResult", 5182540695969702288),
+   ("p.parseReturnStmt", 17121922441145371326),
+   ("p.parseRhs", 8281780890753624981),
+   ("p.parseRhsList", 17987417759011521322),
+   ("p.parseRhsOrType", 18192254701050141348),
+   ("p.parseSelectStmt", 9594983126782960966),
+   ("p.parseSelector", 5115622670061637565),
+   ("p.parseSignature", 3453173962555764405),
+   ("p.parseSimpleStmt", 13990674575188900611),
+   ("p.parseStmt", 4899156027599991182),
+   ("p.parseStmtList", 3688677452576750252),
+   ("p.parseStructType", 3626429592142819885),
+   ("p.parseSwitchStmt", 14906141822307950434),
+   ("p.parseType", 8368057020885929257),
+   ("p.parseTypeAssertion", 5658436882984323424),
+   ("p.parseTypeList", 3833359008634702054),
+   ("p.parseTypeName", 16523531842837059688),
+   ("p.parseTypeSpec", 7944377852135907590),
+   ("p.parseUnaryExpr", 12437607000923878477),
+   ("p.parseValue", 11709649493951410211),
+   ("p.parseValueSpec", 10745735608978541070),
+   ("p.parseVarType", 14658195110327308663),
+   ("p.printTrace", 6454141271753168899),
+   ("p.resolve", 13747981908629628436),
+   ("p.safePos", 3845753444680247363),
+   ("p.shortVarDecl", 12638076752706974322),
+   ("p.tokPrec", 16912144625892153322),
+   ("p.tryIdentOrType", 9275486765756227760),
+   ("p.tryResolve", 6200215599981264726),
+   ("p.tryType", 6752070222216163406),
+   ("p.tryVarType", 2292959367994939460),
+   ("syncDecl", 3196531158120112020),
+   ("syncStmt", 8761388327578696141),
+   ("trace", 6792605919422681544),
+   ("un", 5928175947468411828),
+   ("unparen", 1857905603947572468),
+   ("p.Configure", 2326815622798045281),
+   ("p.Init", 8988796386696123358),
+   ("p.Parse", 12257282134500795957),
+   ("p.parseAny", 13465665849848185308),
+   ("p.parsePackage", 335720412601630678)]
+
 end ParseWhitelist
